@@ -284,9 +284,13 @@ def run_batch(exe, scripts, names, timeout=120):
     else:
         rc_m, model, err_m = vlib.run_driver("model", text)
         rc_s, spec, err_s = vlib.run_driver("spec", text)
+    # the proved structural invariant evaluated on the implementation's raw pointer dumps
+    raw = "".join("--- %s\n%s\n" % (n, "\n".join(impl.get(n) or [])) for n in names)
+    rc_v, inv, err_v = vlib.run_driver("inv", raw)
     res = []
     for n, s in zip(names, scripts):
-        res.append(dict(name=n, script=s, impl=impl.get(n), model=model.get(n), spec=spec.get(n)))
+        res.append(dict(name=n, script=s, impl=impl.get(n), model=model.get(n), spec=spec.get(n),
+                        inv=[l for l in (inv.get(n) or []) if l.startswith("inv bad")]))
     return res, (rc_i, err_i), (rc_m, err_m), (rc_s, err_s)
 
 
@@ -387,4 +391,6 @@ def judge(r, impl_status):
     d = first_diff(r["model"], r["spec"])
     if d:
         return "corr: model differs from spec at line %d model=%r spec=%r" % d
+    if r.get("inv"):
+        return "corr: results agree with the Spec but the implementation's pointer structure violates the invariant the proofs rely on: " + r["inv"][0]
     return None
